@@ -353,6 +353,7 @@ CLASS_NAMES = ["letter", "squote", "dquote", "backslash", "LF", "CR", "NUL", "DE
                "lone-surrogate", "percent", "lbrace", "rbrace"]
 _ALIASES = {"\n": "LINE FEED", "\r": "CARRIAGE RETURN", "\x00": "NULL", "\x7f": "DELETE"}
 _nl = re.compile(r"\r\n|\r|\n")
+_NLNAME = {"\n": "LF", "\r\n": "CRLF", "\r": "CR"}
 
 
 def _hexesc(ch, width):
@@ -470,9 +471,11 @@ def string_shard(arg):
                 values.append(prefix + "".join(rest))
     for s in values:
         names = [CLASS_NAMES[CLASSES.index(c)] for c in s]
-        for nlseq in nl_seqs:
+        # the longest values of the thorough tier get the quick tier's spelling set and two newline sequences
+        full = len(s) <= 3
+        for nlseq in (nl_seqs if full else nl_seqs[:2]):
             env = Environment(newline_sequence=nlseq)
-            for family, sp, kind in string_spellings(s, thorough):
+            for family, sp, kind in string_spellings(s, thorough and full):
                 p.evals += 1
                 expected = s if kind == "exact" else _nl.sub(nlseq, s)  # CALIBRATED: raw line breaks -> newline_sequence
                 # cross-check the spelling generator against Python itself wherever Python can read the spelling
@@ -491,14 +494,14 @@ def string_shard(arg):
                 ok = r[0] == "val" and type(r[1]) is str and r[1] == expected
                 p.sig((family, nlseq, tuple(sorted(set(names))), r[0]))
                 if not ok:
-                    p.violation(f"C14/str/{family}/" + "+".join(sorted(set(names))), {
+                    p.violation(f"C14/str/{family}/nl={_NLNAME[nlseq]}", {
                         "msg": f"newline_sequence={nlseq!r} spelling {ascii(sp)}: got {ascii(r[1:])}, expected {ascii(expected)}",
                         "script": SCRIPT_STR % (nlseq, sp, expected)})
                     continue
                 if family not in ("concat2", "concat3") or len(s) <= 1:
                     r2 = render_text(env, sp)
                     if r2 != ("val", expected):
-                        p.violation(f"C14/str-render/{family}/" + "+".join(sorted(set(names))), {
+                        p.violation(f"C14/str-render/{family}/nl={_NLNAME[nlseq]}", {
                             "msg": f"newline_sequence={nlseq!r} '{{{{ {ascii(sp)} }}}}' rendered {ascii(r2[1:])}, expected {ascii(expected)}",
                             "script": SCRIPT_STR % (nlseq, sp, expected)})
         if len(s) == maxlen:
@@ -562,6 +565,8 @@ def run(ctx: core.Ctx):
         sshards = [("", str_len, nl_seqs, True, True)] + [(c, str_len, nl_seqs, True, True) for c in CLASSES]
         sshards += [(a + b, str_len, nl_seqs, True, False) for a in CLASSES for b in CLASSES]
     ctx.pmap(string_shard, sshards)
+    # the replay kept per signature is the shortest failing case
+    ctx.viol.sort(key=lambda sd: (len(sd[1].get("msg", "")), sd[1].get("msg", "")))
     ctx.cov["bounds"] = {
         "number_alphabet": NUM_ALPHA, "number_max_len": base_len,
         "extended_alphabet": EXT_ALPHA, "extended_max_len": ext_len,
